@@ -638,13 +638,15 @@ ssize_t ZCK_PUBLIC_API zck_write(zckCtx *zck, const char *src, const size_t src_
     }
 }
 
-ssize_t ZCK_PUBLIC_API zck_end_chunk(zckCtx *zck) {
+/* End the current chunk.  The final chunk of a file is ended however small it
+ * is, otherwise its data would never reach the file */
+ssize_t end_chunk(zckCtx *zck, bool final) {
     VALIDATE_WRITE_INT(zck);
 
     if(!zck->comp.started && !comp_init(zck))
         return -1;
 
-    if(zck->comp.dc_data_size < zck->chunk_min_size) {
+    if(!final && zck->comp.dc_data_size < zck->chunk_min_size) {
         zck_log(ZCK_LOG_DDEBUG, "Chunk too small, refusing to end chunk");
         return zck->comp.dc_data_size;
     }
@@ -675,6 +677,10 @@ ssize_t ZCK_PUBLIC_API zck_end_chunk(zckCtx *zck) {
     zck_log(ZCK_LOG_DDEBUG, "Finished chunk size: %llu", (long long unsigned) data_size);
     free(dst);
     return data_size;
+}
+
+ssize_t ZCK_PUBLIC_API zck_end_chunk(zckCtx *zck) {
+    return end_chunk(zck, false);
 }
 
 ssize_t ZCK_PUBLIC_API zck_read(zckCtx *zck, char *dst, size_t dst_size) {
